@@ -106,6 +106,9 @@ def fragmentPieces (v : Version) (data : Bytes) (realLen num itags itagr : Nat) 
       (data.drop (i * realLen)).take (min ((i + 1) * realLen) data.length - i * realLen) ++ [44])
     :: fragmentPieces v data realLen num itags itagr k (i + 1)
 
+/-- number of pieces: rounds up, so that no piece is empty (repaired code) -/
+def numFrags (l r : Nat) : Nat := (l + r - 1) / r
+
 /-- Conversation.fragment (repaired code: int arithmetic, > 65535 pieces → unfragmented) -/
 def fragment (v : Version) (itags itagr : Nat) (data : Bytes) (fraglen : Nat) : List Bytes :=
   let l := data.length
@@ -113,7 +116,7 @@ def fragment (v : Version) (itags itagr : Nat) (data : Bytes) (fraglen : Nat) : 
   let hdr := (fragmentPrefix v 1 1 itags itagr).length
   if fraglen ≤ hdr + 1 then [data] else
   let realLen := fraglen - hdr - 1
-  let num := l / realLen + 1
+  let num := numFrags l realLen
   if num > maxFragments then [data] else
   fragmentPieces v data realLen num itags itagr num 0
 
